@@ -168,9 +168,10 @@ def run_scenario(sc):
             if sc.get("flush_at") == accepted_count["n"]:
                 before = [s for s in sends if not isinstance(s[4], str)]
                 t0 = loop.time()
+                net.ev("flush_call", pending=sum(1 for s in before if not s[4].done()))
                 await p.flush()
                 ctl["flushed"] = {"t": loop.time() - t0,
-                                  "unresolved_before": sum(1 for s in before if not s[4].done())}
+                                  "unresolved_after": sum(1 for s in before if not s[4].done())}
 
         async def task(ti, items):
             for it in items:
@@ -188,14 +189,28 @@ def run_scenario(sc):
                     sends.append((rid, ti, it["p"], it.get("ts"), "EXC:" + type(e).__name__, key, val, hdrs))
                 await maybe_ctl()
 
+        flushes = []
+
+        async def flusher(delay):
+            await asyncio.sleep(delay)
+            before = [s for s in sends if not isinstance(s[4], str)]
+            npend = sum(1 for s in before if not s[4].done())
+            net.ev("flush_call", pending=npend)
+            t0 = loop.time()
+            await p.flush()
+            flushes.append({"at": delay, "t": loop.time() - t0, "pending_at_call": npend,
+                            "unresolved_after": sum(1 for s in before if not s[4].done())})
+
         tasks = [asyncio.ensure_future(task(i, items)) for i, items in enumerate(sc["tasks"])]
+        tasks += [asyncio.ensure_future(flusher(d)) for d in sc.get("flush_after") or []]
         await asyncio.gather(*tasks)
+        out["flushes"] = flushes
         net.ev("quiet_begin")
         # quiet period: faults have ceased (plan exhausted); wait for resolution
         t_quiet = loop.time()
         futs = [s[4] for s in sends if not isinstance(s[4], str)]
         deadline = sc.get("resolve_within", 120.0)
-        if futs:
+        if futs and not sc.get("stop_early"):
             await asyncio.wait(futs, timeout=deadline)
         out["resolve_time"] = loop.time() - t_quiet
         t0 = loop.time()
